@@ -1,0 +1,391 @@
+// Copyright 2025 The Go Authors. All rights reserved.
+// Use of this source code is governed by a BSD-style
+// license that can be found in the LICENSE file.
+
+//go:build verif
+
+package http2
+
+// Contracts for the deductive verifier in /verif (govc): server connection-control and
+// stream-state rules (property C15). The serve goroutine owns every field touched here
+// (confinement is the runtime assertion sc.serveG.check, assumed).
+
+// ---------------------------------------------------------------------------
+// PING (RFC 9113 section 6.7)
+
+//@ func (*serverConn).processPing(sc, f) (err)
+//@   requires sc != nil && f != nil
+//@   ghost acks += 1 at call writeFrame
+//@   assert at call writeFrame: !f.IsAck() && f.StreamID == 0
+//@   assert at call writeFrame: hastype($wr.write, writePingAck) && $wr.write.(writePingAck).pf == f && $wr.stream == nil
+//@   ensures  ghost(acks) == ite(!f.IsAck() && f.StreamID == 0, 1, 0)
+//@   ensures  err != nil <==> (!f.IsAck() && f.StreamID != 0)
+//@   ensures  err != nil ==> hastype(err, ConnectionError) && err.(ConnectionError) == ConnectionError(ErrCodeProtocol)
+//@   modifies *sc, *sc.readIdleTimer
+
+// The queued acknowledgement is written as a PING frame with the ACK flag and the 8 bytes of the
+// frame it answers.
+//
+//@ func (writePingAck).writeFrame(w, ctx) (err)
+//@   havoccalls
+//@   partial nopanic
+//@   requires w.pf != nil && ctx != nil
+//@   ghost pings += 1 at call WritePing
+//@   assert at call WritePing: $ack && $data == w.pf.Data
+//@   ensures  ghost(pings) == 1
+//@   noframe
+
+// ---------------------------------------------------------------------------
+// SETTINGS (RFC 9113 section 6.5)
+//
+// processSettings: an ACK only decrements the count of unacknowledged SETTINGS of the server and is
+// a PROTOCOL connection error when no SETTINGS was outstanding; it never triggers an acknowledgement.
+// A non-ACK frame that is accepted (no error) sets needToSendSettingsAck and runs the frame-write
+// scheduler exactly once with the flag set; a frame with more than 100 settings is a PROTOCOL
+// connection error and requests no acknowledgement; the unacknowledged count is untouched.
+//
+//@ func (*SettingsFrame).HasDuplicates(f) (r)
+//@   opaque
+//@
+//@ func (*serverConn).vlogf(sc, format, args)
+//@   trusted
+//@ func (*serverConn).logf(sc, format, args)
+//@   trusted
+//@
+//@ func (*serverConn).processSetting(sc, s) (err)
+//@   requires sc != nil && sc.hpackEncoder != nil
+//@   ensures  s.ID == SettingMaxConcurrentStreams && err == nil ==> sc.clientMaxStreams == s.Val
+//@   modifies sc.pushEnabled, sc.clientMaxStreams, sc.maxFrameSize, sc.peerMaxHeaderListSize, sc.initialStreamSendWindowSize, outflow.n, *sc.hpackEncoder
+//@   partial pre
+//@
+// The existing contract of processSettingInitialWindowSize (verif_contracts.go) declares no frame;
+// its callers here need one (the fields it writes).
+//
+//@ extend (*serverConn).processSettingInitialWindowSize(sc, val) (err)
+//@   modifies sc.initialStreamSendWindowSize, outflow.n
+//@
+//@ func (*SettingsFrame).ForeachSetting(f, fn) (err)
+//@   inline
+//@   loop 1 invariant 0 <= i
+//@
+//@ func (*serverConn).processSettings(sc, f) (err)
+//@   requires sc != nil && f != nil && f.valid && sc.hpackEncoder != nil
+//@   ghost sched += 1 at call scheduleFrameWrite
+//@   assert at call scheduleFrameWrite: sc.needToSendSettingsAck && !f.IsAck() && f.NumSettings() <= 100
+//@   assert at call ForeachSetting: !f.IsAck() && f.NumSettings() <= 100
+//@   ensures  f.IsAck() ==> sc.unackedSettings == old(sc.unackedSettings) - 1 && ghost(sched) == 0
+//@   ensures  f.IsAck() ==> sc.needToSendSettingsAck == old(sc.needToSendSettingsAck)
+//@   ensures  f.IsAck() ==> (err != nil <==> old(sc.unackedSettings) - 1 < 0)
+//@   ensures  f.IsAck() && err != nil ==> hastype(err, ConnectionError) && err.(ConnectionError) == ConnectionError(ErrCodeProtocol)
+//@   ensures  !f.IsAck() ==> (err == nil <==> ghost(sched) == 1) && ghost(sched) <= 1
+//@   ensures  !f.IsAck() && f.NumSettings() > 100 ==> hastype(err, ConnectionError) && err.(ConnectionError) == ConnectionError(ErrCodeProtocol)
+//@   ensures  !f.IsAck() && err != nil ==> sc.needToSendSettingsAck == old(sc.needToSendSettingsAck)
+//@   noframe
+
+// ---------------------------------------------------------------------------
+// Stream states as the server sees them (RFC 9113 section 5.1) and the write path.
+
+// srvState is the state the server attributes to a stream id: the recorded state of a registered
+// stream, closed for an unregistered id that was used before, idle otherwise (mirrors sc.state).
+//
+//@ pure
+func srvState(sc *serverConn, id uint32) streamState {
+	if st, ok := sc.streams[id]; ok {
+		return st.state
+	}
+	if id%2 == 1 {
+		if id <= sc.maxClientStreamID {
+			return stateClosed
+		}
+	} else if id <= sc.maxPushPromiseID {
+		return stateClosed
+	}
+	return stateIdle
+}
+
+// regOK: a registered stream object is non-nil and neither idle nor closed (closeStream unregisters
+// a stream in the same step that closes it; newStream registers open or half-closed streams).
+//
+//@ pure
+func regOK(sc *serverConn, id uint32) bool {
+	st, ok := sc.streams[id]
+	return !ok || (st != nil && st.state != stateIdle && st.state != stateClosed)
+}
+
+// dropsWrite: the write requests that writeFrame must not hand to the scheduler: anything but
+// RST_STREAM for a stream the server regards as closed, and a 100-continue after the final headers.
+//
+//@ pure
+func dropsWrite(sc *serverConn, wr FrameWriteRequest) bool {
+	if wr.StreamID() != 0 {
+		if _, isReset := wr.write.(StreamError); !isReset && srvState(sc, wr.StreamID()) == stateClosed {
+			return true
+		}
+	}
+	if _, ok := wr.write.(write100ContinueHeadersFrame); ok && wr.stream.wroteHeaders {
+		return true
+	}
+	return false
+}
+
+// writeFrame (the contract in verif_contracts.go is extended): a request is handed to the write
+// scheduler exactly when it is not dropped, unchanged; so no HEADERS, DATA or other stream frame
+// except RST_STREAM is ever queued for a stream in state closed. The scheduler is run exactly once.
+//
+//@ extend (*serverConn).writeFrame(sc, wr)
+//@   noframe
+//@   havoccalls except inflow.avail, inflow.unsent, serverConn.writeSched
+//@   abstractcall Push
+//@   usebody state
+//@   partial nopanic
+//@   ghost pushes += 1 at call Push
+//@   ghost scheds += 1 at call scheduleFrameWrite
+//@   assert at call Push: wr.StreamID() == 0 || hastype(wr.write, StreamError) || old(srvState(sc, wr.StreamID())) != stateClosed
+//@   assert at call Push: !old(dropsWrite(sc, wr)) && $wr == wr
+//@   ensures  ghost(pushes) == ite(old(dropsWrite(sc, wr)), 0, 1) && ghost(scheds) == 1
+
+// ---------------------------------------------------------------------------
+// Handler concurrency: never more than the advertised SETTINGS_MAX_CONCURRENT_STREAMS handler
+// goroutines. curHandlers counts the running handlers; `go sc.runHandler` is the only place a
+// handler starts (besides the h2c upgrade request, which starts the first one).
+
+//@ func (*serverConn).scheduleHandler(sc, streamID, rw, req, handler) (err)
+//@   abstract
+//@   allocates
+//@   requires sc != nil && sc.curHandlers <= sc.advMaxStreams && sc.advMaxStreams < 1<<30
+//@   ghost started += 1 at call runHandler
+//@   assert at call runHandler: old(sc.curHandlers) < sc.advMaxStreams && sc.curHandlers == old(sc.curHandlers) + 1
+//@   assert at call runHandler: $rw == rw && $req == req
+//@   ensures  sc.curHandlers <= sc.advMaxStreams && sc.advMaxStreams == old(sc.advMaxStreams)
+//@   ensures  ghost(started) == ite(old(sc.curHandlers) < sc.advMaxStreams, 1, 0)
+//@   ensures  old(sc.curHandlers) < sc.advMaxStreams ==> err == nil && sc.curHandlers == old(sc.curHandlers) + 1 && len(sc.unstartedHandlers) == len(old(sc.unstartedHandlers))
+//@   ensures  old(sc.curHandlers) >= sc.advMaxStreams ==> sc.curHandlers == old(sc.curHandlers)
+//@   ensures  old(sc.curHandlers) >= sc.advMaxStreams ==> (err != nil <==> int64(len(old(sc.unstartedHandlers))) > 4*int64(sc.advMaxStreams))
+//@   ensures  err != nil ==> hastype(err, ConnectionError) && err.(ConnectionError) == ConnectionError(ErrCodeEnhanceYourCalm) && len(sc.unstartedHandlers) == len(old(sc.unstartedHandlers))
+//@   ensures  old(sc.curHandlers) >= sc.advMaxStreams && err == nil ==> len(sc.unstartedHandlers) == len(old(sc.unstartedHandlers)) + 1
+//@   ensures  old(sc.curHandlers) >= sc.advMaxStreams && err == nil ==> sc.unstartedHandlers[len(sc.unstartedHandlers)-1].streamID == streamID && sc.unstartedHandlers[len(sc.unstartedHandlers)-1].rw == rw && sc.unstartedHandlers[len(sc.unstartedHandlers)-1].req == req
+//@   ensures  int64(len(sc.unstartedHandlers)) <= max(int64(len(old(sc.unstartedHandlers))), 4*int64(sc.advMaxStreams) + 1)
+//@   modifies sc.curHandlers, sc.unstartedHandlers, spare(sc.unstartedHandlers)
+
+// handlerDone: one handler has ended; queued handlers are started in queue order while the limit
+// allows; an entry whose stream is no longer registered (reset before its handler started) is
+// dropped and never run; what stays queued is a suffix of the old queue.
+//
+//@ func (*serverConn).handlerDone(sc)
+//@   abstract
+//@   noframe
+//@   requires sc != nil && 1 <= sc.curHandlers && sc.curHandlers <= sc.advMaxStreams
+//@   ghost started += 1 at call runHandler
+//@   assert at call runHandler: sc.curHandlers <= sc.advMaxStreams && sc.streams[u.streamID] != nil
+//@   assert at call runHandler: $rw == old(sc.unstartedHandlers[i]).rw && $req == old(sc.unstartedHandlers[i]).req
+//@   ensures  int64(sc.curHandlers) == int64(old(sc.curHandlers)) - 1 + ghost(started)
+//@   ensures  sc.curHandlers <= sc.advMaxStreams && sc.advMaxStreams == old(sc.advMaxStreams)
+//@   ensures  sc.curHandlers >= old(sc.curHandlers) - 1
+//@   ensures  len(sc.unstartedHandlers) <= len(old(sc.unstartedHandlers))
+//@   ensures  len(sc.unstartedHandlers) > 0 ==> sc.curHandlers == sc.advMaxStreams
+//@   ensures  len(sc.unstartedHandlers) > 0 ==> samebase(sc.unstartedHandlers, old(sc.unstartedHandlers)) && startoff(sc.unstartedHandlers) == startoff(old(sc.unstartedHandlers)) + (len(old(sc.unstartedHandlers)) - len(sc.unstartedHandlers))
+//@   loop 1 invariant 0 <= i && i <= len(sc.unstartedHandlers)
+//@   loop 1 invariant len(sc.unstartedHandlers) == len(old(sc.unstartedHandlers)) && samebase(sc.unstartedHandlers, old(sc.unstartedHandlers)) && startoff(sc.unstartedHandlers) == startoff(old(sc.unstartedHandlers))
+//@   loop 1 invariant int64(sc.curHandlers) == int64(old(sc.curHandlers)) - 1 + ghost(started)
+//@   loop 1 invariant sc.curHandlers <= sc.advMaxStreams && sc.curHandlers >= old(sc.curHandlers) - 1 && maxHandlers == sc.advMaxStreams && sc.advMaxStreams == old(sc.advMaxStreams)
+//@   loop 1 invariant forall k int :: i <= k && k < len(sc.unstartedHandlers) ==> sc.unstartedHandlers[k].streamID == old(sc.unstartedHandlers[k].streamID) && sc.unstartedHandlers[k].rw == old(sc.unstartedHandlers[k].rw) && sc.unstartedHandlers[k].req == old(sc.unstartedHandlers[k].req)
+//@   modifies sc.curHandlers, sc.unstartedHandlers, elems(sc.unstartedHandlers)
+
+// ---------------------------------------------------------------------------
+// Opening streams: the advertised SETTINGS_MAX_CONCURRENT_STREAMS (RFC 9113 section 5.1.2).
+
+// The ConnState hook of the http.Server is user code run on the serve goroutine (trusted: it
+// cannot reach the unexported connection state).
+//
+//@ func (*serverConn).setConnState(sc, state)
+//@   trusted
+
+// newStream registers a stream object under its id in the requested state and counts it: a client
+// stream (odd id) in curClientStreams, a pushed stream in curPushedStreams, by exactly one.
+//
+//@ func (*serverConn).newStream(sc, id, pusherID, state, priority) (st)
+//@   havoccalls except serverConn.curClientStreams, serverConn.curPushedStreams, serverConn.advMaxStreams, stream.id, stream.state, stream.sc, serverConn.streams
+//@   allocates
+//@   requires sc != nil && sc.hs != nil && sc.writeSched != nil
+//@   assert at call OpenStream: $streamID == id && sc.streams[id] == st && st.state == state
+//@   ensures  st != nil && fresh(st) && st.id == id && st.state == state && st.sc == sc
+//@   ensures  id%2 == 1 ==> sc.curClientStreams == old(sc.curClientStreams) + 1 && sc.curPushedStreams == old(sc.curPushedStreams)
+//@   ensures  id%2 == 0 ==> sc.curPushedStreams == old(sc.curPushedStreams) + 1 && sc.curClientStreams == old(sc.curClientStreams)
+//@   ensures  sc.advMaxStreams == old(sc.advMaxStreams)
+//@   partial nopanic, pre
+//@   modifies sc.curClientStreams, sc.curPushedStreams, mapof(sc.streams)
+//@   noframe
+
+// The RFC 7540 priority scheduler's OpenStream works on its own tree only (verified: the listed
+// connection and stream fields are untouched, whatever else it does).
+//
+//@ func (*priorityWriteSchedulerRFC7540).OpenStream(ws, streamID, options)
+//@   havocs except serverConn.curClientStreams, serverConn.curPushedStreams, serverConn.advMaxStreams, serverConn.streams, stream.id, stream.state, stream.sc
+//@   requires ws != nil && ws.nodes != nil && (ws.nodes[streamID] == nil || ws.nodes[streamID].state == priorityNodeIdleRFC7540)
+//@   ensures  ws.nodes[streamID] != nil && ws.nodes[streamID].state == priorityNodeOpenRFC7540
+//@   partial pre
+//@   noframe
+
+// processHeaders: a HEADERS frame that would open a stream is refused without creating a stream or
+// scheduling a handler when the id is even, not above every earlier client stream id, or when the
+// stream would exceed the advertised limit (stream error PROTOCOL_ERROR, or REFUSED_STREAM while a
+// SETTINGS of the server is unacknowledged). A stream is created only below the limit, for an odd id
+// above all earlier ones, and a handler is scheduled at most once, for that stream.
+//
+//@ func (*serverConn).processHeaders(sc, f) (err)
+//@   havoccalls
+//@   requires sc != nil && f != nil && f.HeadersFrame != nil
+//@   requires sc.curClientStreams <= sc.advMaxStreams && sc.advMaxStreams < 1<<30
+//@   ghost opened += 1 at call newStream
+//@   ghost scheduled += 1 at call scheduleHandler
+//@   assert at call newStream: old(sc.streams[f.HeadersFrame.StreamID]) == nil && old(sc.curClientStreams) < old(sc.advMaxStreams)
+//@   assert at call newStream: $id == old(f.HeadersFrame.StreamID) && $id%2 == 1 && $id > old(sc.maxClientStreamID) && $pusherID == 0
+//@   assert at call newStream: $state == ite(old(f.StreamEnded()), stateHalfClosedRemote, stateOpen)
+//@   assert at call scheduleHandler: ghost(opened) == 1 && $streamID == old(f.HeadersFrame.StreamID)
+//@   ensures  ghost(opened) <= 1 && ghost(scheduled) <= ghost(opened)
+//@   ensures  old(f.HeadersFrame.StreamID)%2 != 1 ==> ghost(opened) == 0 && hastype(err, ConnectionError) && err.(ConnectionError) == ConnectionError(ErrCodeProtocol)
+//@   ensures  old(sc.streams[f.HeadersFrame.StreamID]) != nil ==> ghost(opened) == 0
+//@   ensures  old(f.HeadersFrame.StreamID)%2 == 1 && old(sc.streams[f.HeadersFrame.StreamID]) == nil && old(f.HeadersFrame.StreamID) <= old(sc.maxClientStreamID) ==> ghost(opened) == 0 && hastype(err, ConnectionError) && err.(ConnectionError) == ConnectionError(ErrCodeProtocol)
+//@   ensures  old(f.HeadersFrame.StreamID)%2 == 1 && old(sc.streams[f.HeadersFrame.StreamID]) == nil && old(f.HeadersFrame.StreamID) > old(sc.maxClientStreamID) && old(sc.curClientStreams) + 1 > old(sc.advMaxStreams) ==> ghost(opened) == 0 && hastype(err, StreamError) && err.(StreamError).StreamID == old(f.HeadersFrame.StreamID) && err.(StreamError).Code == ite(old(sc.unackedSettings) == 0, ErrCodeProtocol, ErrCodeRefusedStream)
+//@   ensures  old(f.HeadersFrame.StreamID)%2 == 1 && old(sc.streams[f.HeadersFrame.StreamID]) == nil && old(f.HeadersFrame.StreamID) > old(sc.maxClientStreamID) && old(sc.curClientStreams) + 1 <= old(sc.advMaxStreams) ==> ghost(opened) == 1
+//@   partial nopanic, pre
+//@   noframe
+
+// ---------------------------------------------------------------------------
+// Closing streams.
+
+// closeStream: the stream goes to state closed, is counted out of curClientStreams (odd id) or
+// curPushedStreams (even id) by exactly one and is unregistered, all before anything else is called
+// (first calls on every path: timers, the ConnState hook, the body pipe); then the body pipe, the
+// close waiter and, exactly once, the write scheduler (which drops the frames still queued for the
+// stream, C12) are told. The calls that follow the bookkeeping can run the frame-write scheduler,
+// which may close other streams; this is why the counters are stated at the call sites and not
+// at the exit.
+//
+//@ func (*serverConn).closeStream(sc, st, err)
+//@   abstract
+//@   havoccalls except stream.id
+//@   partial nopanic
+//@   abstractcall CloseStream, sendWindowUpdate
+//@   trustcall cancelCtx
+//@   requires sc != nil && st != nil && st.state != stateIdle && st.state != stateClosed
+//@   ghost told += 1 at call CloseStream
+//@   ghost hooked += 1 at call setConnState
+//@   ghost hooked += 1 at call Len
+//@   assert at call setConnState: st.state == stateClosed && sc.streams[st.id] == nil
+//@   assert at call setConnState: sc.curClientStreams == old(sc.curClientStreams) - ite(st.id%2 == 1, uint32(1), uint32(0)) && sc.curPushedStreams == old(sc.curPushedStreams) - ite(st.id%2 == 0, uint32(1), uint32(0))
+//@   assert at call Len: ghost(hooked) == 0 ==> st.state == stateClosed && sc.streams[st.id] == nil
+//@   assert at call Len: ghost(hooked) == 0 ==> sc.curClientStreams == old(sc.curClientStreams) - ite(st.id%2 == 1, uint32(1), uint32(0)) && sc.curPushedStreams == old(sc.curPushedStreams) - ite(st.id%2 == 0, uint32(1), uint32(0))
+//@   assert at call cancelCtx: ghost(hooked) == 0 ==> st.state == stateClosed && sc.streams[st.id] == nil
+//@   assert at call cancelCtx: ghost(hooked) == 0 ==> sc.curClientStreams == old(sc.curClientStreams) - ite(st.id%2 == 1, uint32(1), uint32(0)) && sc.curPushedStreams == old(sc.curPushedStreams) - ite(st.id%2 == 0, uint32(1), uint32(0))
+//@   assert at call sendWindowUpdate: $st == nil
+//@   assert at call CloseStream: $streamID == st.id
+//@   ensures  ghost(told) == 1
+//@   noframe
+
+// processResetStream: RST_STREAM for an idle stream is a PROTOCOL connection error and closes
+// nothing; for a registered stream the stream is closed exactly once (closeStream: state closed,
+// counted out once), with the peer's error code; for an already closed stream nothing happens.
+//
+//@ func (*serverConn).processResetStream(sc, f) (err)
+//@   usebody state
+//@   trustcall cancelCtx
+//@   requires sc != nil && f != nil
+//@   requires forall id uint32 :: regOK(sc, id)
+//@   ghost closes += 1 at call closeStream
+//@   assert at call closeStream: $st == old(sc.streams[f.StreamID]) && old(srvState(sc, f.StreamID)) != stateIdle && old(srvState(sc, f.StreamID)) != stateClosed
+//@   assert at call closeStream: hastype($err, StreamError) && $err.(StreamError).StreamID == f.StreamID && $err.(StreamError).Code == f.ErrCode
+//@   ensures  err != nil <==> old(srvState(sc, f.StreamID)) == stateIdle
+//@   ensures  err != nil ==> hastype(err, ConnectionError) && err.(ConnectionError) == ConnectionError(ErrCodeProtocol)
+//@   ensures  ghost(closes) == ite(old(srvState(sc, f.StreamID)) == stateIdle || old(srvState(sc, f.StreamID)) == stateClosed, 0, 1)
+//@   noframe
+
+// ---------------------------------------------------------------------------
+// Writing frames: startFrameWrite / wroteFrame.
+
+// endsStreamWrite mirrors writeEndsStream for non-nil writers: DATA or HEADERS with END_STREAM.
+//
+//@ pure
+func endsStreamWrite(w writeFramer) bool {
+	switch v := w.(type) {
+	case *writeData:
+		return v.endStream
+	case *writeResHeaders:
+		return v.endStream
+	}
+	return false
+}
+
+// liveForWrite is the condition the panics of startFrameWrite enforce: a frame is started for a
+// stream only when the stream is not closed, and on a half-closed (local) stream only RST_STREAM
+// and WINDOW_UPDATE.
+//
+//@ pure
+func liveForWrite(wr FrameWriteRequest) bool {
+	if wr.stream == nil {
+		return true
+	}
+	if wr.stream.state == stateClosed {
+		return false
+	}
+	if wr.stream.state == stateHalfClosedLocal {
+		switch wr.write.(type) {
+		case StreamError, handlerPanicRST, writeWindowUpdate:
+			return true
+		}
+		return false
+	}
+	return true
+}
+
+// startFrameWrite: given a request that is live for writing (what writeFrame's filter and the
+// scheduler's CloseStream maintain for queued requests), none of its internal-error panics is
+// reachable, and at every point where the frame is handed to the framer (synchronous writeFrame of
+// the request, startWriteDataPadded, the asynchronous writer) the stream is still not closed and the
+// connection is marked as writing exactly one frame.
+//
+//@ func (*serverConn).startFrameWrite(sc, wr)
+//@   abstract
+//@   havoccalls
+//@   abstractcall wroteFrame, writeFrame, startWriteDataPadded
+//@   trustcall allocatePromisedID
+//@   requires sc != nil && !sc.writingFrame && wr.write != nil && sc.bw != nil && sc.framer != nil
+//@   requires liveForWrite(wr)
+//@   requires !hastype(wr.write, *writePushPromise)
+//@   requires hastype(wr.write, *writeData) ==> wr.write.(*writeData) != nil
+//@   ghost started += 1 at call writeFrame
+//@   ghost started += 1 at call writeFrameAsync
+//@   ghost done += 1 at call wroteFrame
+//@   assert at call writeFrame: wr.stream == nil || wr.stream.state != stateClosed
+//@   assert at call writeFrame: liveForWrite(wr) && wr == old(wr)
+//@   assert at call writeFrame: sc.writingFrame
+//@   assert at call writeFrame: hastype($ctx, *serverConn) && $ctx.(*serverConn) == sc
+//@   assert at call startWriteDataPadded: liveForWrite(wr) && sc.writingFrame && hastype(wr.write, *writeData) && $streamID == wr.write.(*writeData).streamID && $endStream == wr.write.(*writeData).endStream
+//@   assert at call writeFrameAsync: $wr == wr && ($wd == nil ==> liveForWrite(wr) && sc.writingFrame && sc.writingFrameAsync)
+//@   assert at call wroteFrame: $res.wr == wr && ghost(started) == 1
+//@   ensures  ghost(started) == 1 && ghost(done) <= 1
+//@   noframe
+
+// wroteFrame: closeStream is called exactly when the written frame ends the stream: END_STREAM on
+// a stream whose remote side is already closed, RST_STREAM (a StreamError whose stream is still
+// registered, or a handler-panic reset). END_STREAM on an open stream moves it to half-closed
+// (local) and queues exactly one RST_STREAM(NO_ERROR) for it (the stream is closed when that one
+// has been written). Afterwards the writer is answered and the scheduler is run once.
+//
+//@ func (*serverConn).wroteFrame(sc, res)
+//@   abstract
+//@   havoccalls except stream.id
+//@   abstractcall closeStream, resetStream, scheduleFrameWrite
+//@   partial nopanic
+//@   requires sc != nil && sc.writingFrame && res.wr.write != nil
+//@   requires forall id uint32 :: regOK(sc, id)
+//@   ghost closes += 1 at call closeStream
+//@   ghost resets += 1 at call resetStream
+//@   ghost scheds += 1 at call scheduleFrameWrite
+//@   assert at call closeStream: !sc.writingFrame && !sc.writingFrameAsync
+//@   assert at call closeStream: (old(endsStreamWrite(res.wr.write)) && $st == res.wr.stream && old(res.wr.stream.state) == stateHalfClosedRemote) || (hastype(res.wr.write, StreamError) && $st == old(sc.streams[res.wr.write.(StreamError).StreamID]) && $st != nil) || (hastype(res.wr.write, handlerPanicRST) && $st == res.wr.stream)
+//@   assert at call resetStream: old(endsStreamWrite(res.wr.write)) && old(res.wr.stream.state) == stateOpen && res.wr.stream.state == stateHalfClosedLocal && $se.StreamID == res.wr.stream.id && $se.Code == ErrCodeNo
+//@   ensures  ghost(scheds) == 1
+//@   ensures  ghost(resets) == ite(old(endsStreamWrite(res.wr.write)) && old(res.wr.stream.state) == stateOpen, 1, 0)
+//@   ensures  ghost(closes) == ite((old(endsStreamWrite(res.wr.write)) && old(res.wr.stream.state) == stateHalfClosedRemote) || (hastype(res.wr.write, StreamError) && old(sc.streams[res.wr.write.(StreamError).StreamID]) != nil) || hastype(res.wr.write, handlerPanicRST), 1, 0)
+//@   noframe
